@@ -15,6 +15,7 @@ package match
 
 import (
 	"errors"
+	"sort"
 	"strings"
 )
 
@@ -213,7 +214,20 @@ func (m *Matcher) mapcatMatch(bss []Bindings, pattern map[string]interface{}, fa
 		return nil, err
 	}
 
-	for k, v := range pattern {
+	// Consider the pattern's properties in a fixed (sorted) order.
+	// The order matters when a variable occurs under several keys
+	// (the first occurrence binds it, the others are checked
+	// against that binding) and when the pattern is invalid under
+	// one key and merely doesn't match under another; Go's map
+	// iteration order would make the outcome vary from call to call.
+	keys := make([]string, 0, len(pattern))
+	for k := range pattern {
+		keys = append(keys, k)
+	}
+	sort.Strings(keys)
+
+	for _, k := range keys {
+		v := pattern[k]
 		if m.IsVariable(k) {
 			if m.AllowPropertyVariables {
 				if len(pattern) == 1 {
